@@ -406,6 +406,8 @@ HandleData(f) ==
        ELSE UNCHANGED <<rfBase, ackq, asm, rAlloc, rEnd, entry, entryFlag, dataFlag, chCount, chReady, winReady>>
     /\ UNCHANGED <<syncReply, rBase, chBase>>
 
+MarkerFromZero == FALSE
+
 \* ------------------------------------------------------------------ advance_window / resynchronize
 (* PacketReceiver::advance_window(nb): returns the changed receiver fields *)
 AdvanceTo(nb, asm0, alloc0, flags0, end0, chb0) ==
@@ -414,13 +416,15 @@ AdvanceTo(nb, asm0, alloc0, flags0, end0, chb0) ==
         freed == [s \in Slots |-> IF s \in passed /\ asm0[s].k # "Open" THEN asm0[s].alloc ELSE 0]
         RECURSIVE Sum(_)
         Sum(S) == IF S = {} THEN 0 ELSE LET x == CHOOSE y \in S : TRUE IN freed[x] + Sum(S \ {x})
-        \* channel base markers at ids base+1 .. nb are unset
-        unsetIds == {PAdd(p, 1) : p \in passedIds}
+        \* channel base markers at ids base+1 .. nb are unset.  The markers live in a ring of PW slots, so the slot of
+        \* the old base is also the slot of base + PW, a legal channel base; MarkerFromZero (FALSE; overridden by the
+        \* non-vacuity configuration of MC_Recv) also clears that slot, which is the slip of the seeded changes for C01
+        unsetSlots == {Slot(PAdd(p, 1)) : p \in passedIds} \cup (IF MarkerFromZero THEN {Slot(rBase)} ELSE {})
     IN  [asm |-> [s \in Slots |-> IF s \in passed THEN [k |-> "Open"] ELSE asm0[s]],
          alloc |-> alloc0 - Sum(passed),
          eflags |-> flags0 \ passed,
          end |-> IF PSub(end0, rBase) < PSub(nb, rBase) THEN nb ELSE end0,
-         chb |-> [c \in Chans |-> IF chb0[c] # None /\ chb0[c] \in unsetIds THEN None ELSE chb0[c]],
+         chb |-> [c \in Chans |-> IF chb0[c] # None /\ Slot(chb0[c]) \in unsetSlots THEN None ELSE chb0[c]],
          base |-> nb]
 
 RECURSIVE ResyncStop(_, _)
